@@ -163,6 +163,23 @@ def cases_character_sets():
             expect_thousands = "accept" if character in ".," else ("either" if character == " " else "refuse")
             cases.append({"group": "character-set", "format": fmt, "props": item + [["Decimal separator", other], ["Thousands separator", character]], "expect": expect_thousands, "what": "thousands separator",
                           "attrs": {"thousands_separator": character, "decimal_separator": other} if expect_thousands == "accept" else {}})
+    # values that are not a single character of the documented set: empty, several characters, the whole set
+    multi = ["", '"#', "#$", "+-", ":;", ".,", ",.", '""', "''", QUOTE_SET, "a'", "' ", " '", "\\\\", "..", ",,"]
+    for value in multi:
+        cases.append({"group": "character-set", "format": "delimited", "props": [["Item delimiter", "|"], ["Quote character", value]], "expect": "refuse", "what": "quote character (not a single character)"})
+        cases.append({"group": "character-set", "format": "delimited", "props": [["Escape character", value]], "expect": "refuse", "what": "escape character (not a single character)"})
+        for fmt in ("delimited", "fixed"):
+            item = [["Item delimiter", "|"]] if fmt == "delimited" else []
+            cases.append({"group": "character-set", "format": fmt, "props": item + [["Decimal separator", value]], "expect": "refuse", "what": "decimal separator (not a single character)"})
+            if value != "":
+                cases.append({"group": "character-set", "format": fmt, "props": item + [["Decimal separator", "."], ["Thousands separator", value]], "expect": "refuse" if value not in (",",) else "accept", "what": "thousands separator (not a single character)"})
+    for value in ("", "minimal ", "ALL", "All", "Minimal", "none", "minimalall", "m", "al"):
+        expect = "accept" if value.lower() in ("all", "minimal") else "refuse"
+        cases.append({"group": "character-set", "format": "delimited", "props": [["Quoting", value]], "expect": expect, "what": "quoting"})
+    for value in ("true", "True", "FALSE", "false", "", "yes", "1", "truefalse", "t"):
+        expect = "accept" if value.lower() in ("true", "false") else "refuse"
+        cases.append({"group": "character-set", "format": "delimited", "props": [["Skip initial space", value]], "expect": expect, "what": "skip initial space",
+                      "attrs": {"skip_initial_space": value.lower() == "true"} if expect == "accept" else {}})
     return cases
 
 
